@@ -47,13 +47,13 @@ func main() { vlib.Run("C31", run) }
 
 func run(c *vlib.Ctx) {
 	c.Rule("case = one random UnixFS tree (depth <= 3, basic and HAMT directories of fan-out 8..256, files 0..40kB with chunk 1..1024 / fan-out 2..174 / balanced|trickle / raw|pb leaves, symlinks, repeated subtrees and periodic files so blocks repeat) served by NewBlocksBackend+NewHandler (DeserializedResponses on or off) + 10..16 requests: format=raw (query or Accept; GET and HEAD; root, entry paths when deserialized responses are on, and inner blocks by CID) and format=car x dag-scope {absent,block,entity,all} x entity-bytes from {0,pos,-neg,>=size} : to {*,pos,-neg,>size} x dups {absent,y,n via car-dups or Accept} x order/version params, on the root, on entry paths of depth 1..3 and on file CIDs directly. Stratum hamt forces a wide HAMT root (multi-level shards), stratum files asks ranges on multi-level file DAGs. distinct = FNV of tree summary + requests + observed results; non-trivial = the case verified a CAR whose path crosses a HAMT with >= 2 shard levels or an entity-bytes CAR that is a strict subset of the file's blocks, and a DAG with repeated blocks was served both without and (if drawn) with dups")
-	c.Cases("mixed", c.N(72, 1100), func(k *vlib.Case) {
+	c.Cases("mixed", c.N(72, 700), func(k *vlib.Case) {
 		oneCase(k, ufsgen.TreeOpts{MaxDepth: 3, MaxEntries: 10, SubEntries: 8, MaxFileSize: 6000, Symlinks: true, Repeats: true}, 0)
 	})
-	c.Cases("hamt", c.N(24, 400), func(k *vlib.Case) {
+	c.Cases("hamt", c.N(24, 250), func(k *vlib.Case) {
 		oneCase(k, ufsgen.TreeOpts{MaxDepth: 2, MaxEntries: 300, SubEntries: 20, MaxFileSize: 300, Symlinks: true, Repeats: true, RootHAMT: 1}, 1)
 	})
-	c.Cases("files", c.N(48, 800), func(k *vlib.Case) {
+	c.Cases("files", c.N(48, 500), func(k *vlib.Case) {
 		oneCase(k, ufsgen.TreeOpts{MaxDepth: 1, MaxEntries: 6, SubEntries: 4, MaxFileSize: 40000, Repeats: true}, 2)
 	})
 }
